@@ -210,7 +210,7 @@ def run(tier):
                 rep.violated("M18.map(%s)" % tag, "M18.map", "the constructor aborts on a valid view: %s" % e, dict())
                 continue
             calls = []
-            for i, (callee, vals, der) in enumerate(ev.extcalls):
+            for i, (callee, vals, der, _stk) in enumerate(ev.extcalls):
                 calls.append((callee, vals, der, outs.get(i + 1)))
             sunk, problems = interpret(calls, basics)
             key = "M18.life(%s)" % tag
